@@ -28,7 +28,24 @@ REQUIRED = ['fam_' + f for f in genrec.FAMILIES] + [
     'workflow', 'single_statement']
 
 
+def PlanModel():
+  """Model-level part: spec/IterPlan.tla (generation arithmetic of the
+  iterative plan) checked for every group size 1..5 and depth 0..60."""
+  from harness import tlc
+  r = tlc.Run('IterPlan', workers=4, timeout=900, tag='iterplan')
+  if not r.ok:
+    raise RuntimeError('IterPlan model check failed:\n' + r.out[-3000:])
+  return r
+
+
 def Run(tier):
+  r = PlanModel()
+  EXTRA = {'iterplan_states': r.distinct, 'iterplan_transitions': r.generated,
+           'proggen_states': r.distinct, 'proggen_transitions': r.generated,
+           'iterplan_model': 'IterPlan.tla: NoMixed, FinalGeneration '
+                             '(depth+1 >= ignition => generation depth+1), '
+                             'BelowIgnition, Terminates for group sizes 1..5 '
+                             'x depths 0..60'}
   return semrun.StandardRun(
       PROP, tier, Cases(tier), REQUIRED,
       rule=('program families (transitive closure as set and as bag, counter, '
@@ -43,7 +60,8 @@ def Run(tier):
             'mutually recursive groups'),
       assumptions=['as C01/C02',
                    'mutual-recursion families are monotone and set-valued '
-                   '(distinct)'])
+                   '(distinct)'],
+      extra_coverage=EXTRA)
 
 
 def Replay(path):
